@@ -6,12 +6,15 @@
 // Amsterdam), the balance-derived allowance (balance - value)/feeCap, and the gasCap
 // argument. This family walks a grid
 //
-//	rule set  x  which cap is meant to bind  x  where the true requirement lies relative to it
+//	rule set  x  cap meant to bind  x  where the true requirement lies relative to it
 //
-// with the other caps absent, tied, one above, a little above or far above the binding one,
-// and the binding cap placed at 5M, just below / at / just above 2^24, ~18M and 30M (also as
-// block gas limit). The callee is a gas-monotone burner whose requirement the harness places
-// to the unit (see burner) and then measures by its own search; the verdict comes from
+// cell by cell, with the cap meant to come next rotating per round and the remaining caps
+// absent, tied, one above, a little above or far above the binding one. The binding cap sits
+// at 5M, just below / at / just above 2^24, ~18M, 30M (also as block gas limit) or - same cap
+// logic, cheap to execute - in 0.2M..2M. The callee is a gas-monotone burner whose
+// requirement the harness places to the unit (see burner) and then measures by its own
+// search; which cell a case actually lands in is read off the judged state (counters cell/,
+// pair/, dim/), not off the plan. The verdict comes from
 // judge(): recomputed allowance + re-execution + application as a real transaction.
 package main
 
@@ -40,8 +43,8 @@ const (
 var (
 	// rule-set slots of the grid: Frontier stands for "one of London, Cancun, Prague" (no
 	// per-transaction cap; drawn per case); Osaka, where the cap applies, gets half of the grid
-	capForks  = []execenv.Fork{execenv.Frontier, execenv.Frontier, execenv.Osaka, execenv.Osaka, execenv.Osaka, execenv.Amsterdam}
-	capKinds  = []string{"block", "call", "maxtxgas", "balance", "gascap"}
+	capForks = []execenv.Fork{execenv.Frontier, execenv.Frontier, execenv.Osaka, execenv.Osaka, execenv.Osaka, execenv.Amsterdam}
+	capKinds = []string{"block", "call", "maxtxgas", "balance", "gascap"}
 	// (the relations between the binding cap and the next one are cheap - one failing execution
 	// in the estimator - and are what tells a cap that is not applied: double weight)
 	capRels   = []string{"below-far", "below-near", "at", "above-near", "above-next", "above-next", "at-next", "at-next", "above-all"}
@@ -351,8 +354,21 @@ func capCase(r *vrt.Run, ci int, heavy bool, offset int) {
 			cands = append(cands, c)
 		}
 	}
-	under := cands[rng.Intn(len(cands))]
+	under := cands[(ci/capCells+cell)%len(cands)] // rotates with the round: every pair in every seed
+	nextRel := rel == "above-near" || rel == "above-next" || rel == "at-next"
 	aboveAnchor := func() uint64 {
+		if fork == execenv.Osaka && want != "maxtxgas" && under != "maxtxgas" && anchor < maxTx {
+			// to come next under Osaka a cap must not exceed the per-transaction cap
+			switch d := maxTx - anchor; rng.Intn(4) {
+			case 0:
+				return anchor + 1
+			case 1:
+				return anchor + 1 + min(d-1, uint64(rng.Intn(2000)))
+			case 2:
+				return anchor + 1 + uint64(rng.Int63n(int64(d)))
+			}
+			return maxTx
+		}
 		for {
 			if v := loose(); v > anchor {
 				return v
@@ -365,7 +381,7 @@ func capCase(r *vrt.Run, ci int, heavy bool, offset int) {
 	}
 	above := func() uint64 { return underVal }
 	rest := func() uint64 { // a cap that is neither meant to bind nor to come next
-		if v := loose(); v >= underVal || rng.Intn(2) == 0 {
+		if v := loose(); v >= underVal || !nextRel && rng.Intn(2) == 0 {
 			return v
 		}
 		return underVal + uint64(rng.Intn(3))*uint64(rng.Intn(1_000_000))
